@@ -79,3 +79,8 @@ claim("C11",
       "Necessary conditions for every length/segment-size pair and every path: a full segment can carry END (the divisor case), partial reads always do, START only on the first segment; Send's success returns are dominated by acknowledged == sent with the sent length reported only after EOF; the receiver hands a bundle up only after END and a successful parse and never appends data of foreign or finished transfers; segment data never exceeds the negotiated size.",
       "Not decided: that the concatenation equals the encoding, behaviour under concurrency and faults, the peer's conformance.",
       "DESIGN.md §3 C11")
+claim("C12",
+      "ordering / error-discipline rules on MTCPClient.Send (must-pass, guarded store into the named result, defer-before-write), framing agreement of client and server, guarded-store typestate of the BBC reader, sibling agreement of the sequence successor, resolved-constant bit-layout rule, guarded-call dominance in the connector",
+      "Necessary conditions on every path: the MTCP frame header announces exactly the serialised length and is followed by those bytes and a probe; each step's error ends the send and reaches the PeerDisappeared report; the server skips zero-length frames and reports only parsed bundles; a BBC fragment's payload is appended only after all four checks, sequence numbers advance identically on both sides within the field width, header masks are disjoint and agree, a bundle is reported only when finished and parsed and every error exit broadcasts a failure fragment.",
+      "Not decided: stream order preservation, behaviour under arbitrary loss/duplication beyond the single-fragment checks, the xz library.",
+      "DESIGN.md §3 C12")
